@@ -6,7 +6,8 @@ RULE = ("op sequences over {fill(n), read(n), set_position(p), seek(Start/Curren
         "from chunk and parent states in all modes and from merge_subtrees_root_xof; positions drawn from 0..200, "
         "2^38+-200 (block counter crossing 2^32), 2^63+-200, near 2^64-1; fill sizes 0..300 and 1000..5000; "
         "exhaustive (p mod 64, n) grid at three bases; wide fills of 2..33 blocks started 1..17 blocks below output "
-        "block 2^32 (every xof_many group shape straddling the counter carry). Non-trivial = distinct sequence with a partial-block read or a seek.")
+        "block 2^32 (every xof_many group shape straddling the counter carry); reads (fill, io::Read, after seek) that end "
+        "inside the final partial block or exactly at 2^64-1. Non-trivial = distinct sequence with a partial-block read or a seek.")
 MODELLED = ["Platform::xof_many AVX-512 path: platform record (PlatformOK), tied by C05 and by the forced-platform runs here"]
 ASSUMPTIONS = ["reads stay below 2^64-1 (beyond that the documentation says unspecified)"]
 
@@ -103,12 +104,36 @@ def gen_cases(seed, tier):
                 if tier != "thorough" and (idx + seed) % 3:
                     continue
                 off = rng.choice([0, 0, 17, 63])
-                ops += [f"rs:0:{((1 << 32) - k) * 64 + off}", f"rf:0:{64 * m + rng.choice([0, 0, 5])}", "rp:0"]
+                boundary = (1 << 31) if (idx % 5 == 0) else (1 << 32)    # 2^31: signed/unsigned compare tricks
+                ops += [f"rs:0:{(boundary - k) * 64 + off}", f"rf:0:{64 * m + rng.choice([0, 0, 5])}", "rp:0"]
                 if len(ops) > 60:
                     lines.append(f"H {rng.choice(ms)} {plat} " + " ".join(ops))
                     ops = ["u:0:paint/0/1025", "xo:0"]
         if len(ops) > 2:
             lines.append(f"H {rng.choice(ms)} {plat} " + " ".join(ops))
+        # the END of the stream: the last block (index 2^58-1) is partial, bytes 2^64-64 .. 2^64-2.  Every read
+        # through fill, io::Read and after seek that ends inside it or exactly at 2^64-1 is legal.
+        END = (1 << 64) - 1
+        ops = ["u:0:paint/0/65", "xo:0"]
+        shapes = []
+        for back in (1, 2, 10, 62, 63, 64, 65, 100, 127, 128, 129, 200):
+            for n in sorted(set([1, back // 2, back - 1, back]) - {0}):
+                shapes.append((back, n))
+        for idx, (back, n) in enumerate(shapes):
+            if tier != "thorough" and (idx + seed) % 2:
+                continue
+            kind = ("rf", "rr", "rr")[idx % 3]
+            if idx % 4 == 3:
+                ops += [f"rk:0:s:{END - back}"]
+            else:
+                ops += [f"rs:0:{END - back}"]
+            ops += [f"{kind}:0:{n}", "rp:0"]
+            if len(ops) > 50:
+                lines.append(f"H {rng.choice(ms)} {plat} " + " ".join(ops))
+                ops = ["u:0:paint/0/65", "xo:0"]
+        # crossing into the last block by consecutive reads
+        ops += [f"rs:0:{END - 300}", "rr:0:100", "rr:0:137", "rp:0", "rr:0:63", "rp:0", "rr:0:0", "rp:0"]
+        lines.append(f"H {rng.choice(ms)} {plat} " + " ".join(ops))
     return number(lines)
 
 
